@@ -7,6 +7,8 @@
     close <c> | combine <c> <0|1> → ok | nochan
     recv <c> <n> | recverr <c> <n>   → data:<hex> | timeout | nochan
     state <c>                     → out=<hex> err=<hex> combine=<0|1> eof=<0|1> exit=<v|none> | nochan
+    exitreq <rid> <status>        → hex of the CHANNEL_REQUEST "exit-status" message send_exit_status writes
+    exitparse <hex>               → status `_handle_request` reads from the bytes after the channel id | none
     witness                       → the history of `race_witness_before_fix`
 -/
 import PV.Model.Mux
@@ -84,6 +86,14 @@ def dstep (m : Table) (line : String) : Table × String :=
           " eof=" ++ b01 ch.eof ++ " closed=" ++ b01 ch.closed ++ " linked=" ++ b01 ch.linked ++ " exit=" ++
           (match ch.exit with | some v => toString v | none => "none") ++ " alive=" ++ b01 m.alive)
       | none => (m, "nochan")
+    | none => (m, "bad-op")
+  | ["exitreq", rid, v] =>
+    match rid.toNat?, v.toNat? with
+    | some rid, some v => (m, toHexTok (exitStatusRequest rid v))
+    | _, _ => (m, "bad-op")
+  | ["exitparse", h] =>
+    match ofHex? h with
+    | some b => (m, match handleRequestExit b with | some v => toString v | none => "none")
     | none => (m, "bad-op")
   | ["witness"] => (m, "ext 0 1 41;combine-old-a 0;ext 0 1 42;combine-old-b 0;recv 0 10")
   | _ => (m, "bad-op")
